@@ -296,6 +296,32 @@ Section JS.
              CInvJ_mono js_cache_transparent js_id_renaming js_caches_sound h h' s ctx us Hh Hh' Hg).
   Qed.
 
+  (* C15 with JavaScript: after any list of earlier transforms (all inside the guard) *)
+  Theorem run_deterministic_js : forall h h' hist s ctx us,
+    InvJ h -> InvJ h' -> Forall (fun x => js_guard (fst (fst x))) hist -> js_guard s ->
+    run_env_js (PP.after_history vdecl value jsstate eval_js marshal marshal_err_cont H canon h hist) s ctx us
+    = run_env_js h' s ctx us.
+  Proof.
+    intros h h' hist s ctx us Hh Hh' Hhist Hg.
+    exact (PP.run_after_history vdecl value jsstate c0 eval_js marshal marshal_err_cont H canon CInvJ js_guard
+             CInvJ_mono js_cache_transparent js_id_renaming js_caches_sound h h' hist s ctx us Hh Hh' Hhist Hg).
+  Qed.
+
+  (* C10 with JavaScript *)
+  Theorem run_app_js : forall h ha hb s ctx a b,
+    InvJ h -> InvJ ha -> InvJ hb -> js_guard s ->
+    PP.nofatal (run_env_js ha s ctx a) ->
+    run_env_js h s ctx (a ++ b) = run_env_js ha s ctx a ++ run_env_js hb s ctx b.
+  Proof.
+    intros h ha hb s ctx a b Hh Ha Hb Hg Hn.
+    exact (PP.run_app vdecl value jsstate c0 eval_js marshal marshal_err_cont H canon CInvJ js_guard
+             CInvJ_mono js_cache_transparent js_id_renaming js_caches_sound h ha hb s ctx a b Hh Ha Hb Hg Hn).
+  Qed.
+
+  (* the invariant holds with empty JavaScript caches whatever IDs were handed out *)
+  Lemma CInvJ_empty used nocache pc nc : CInvJ used (st_init nocache pc nc).
+  Proof. split; [constructor|split; [constructor|]]. intros all _ _. constructor. Qed.
+
   (* the fresh process satisfies the invariant, with the JS caches switched on or off and any
      capacities *)
   Lemma InvJ_fresh pooling picks memo nocache pc nc :
